@@ -157,6 +157,23 @@ CLAIMS = {
               "Hann/Blackman/Blackman-Harris ones; the squared variants square exactly the named base window (law-free); windows are non-negative and 1 at the centre."),
         note=NOTE + "Not proved: the stopband rejection magnitudes; FFT bin truncation is inside realfft-dependent code (not modelled).",
         ref="3.2"),
+
+    "C11": dict(
+        technique="Lean 4 proof (law-free: channel projection commutes with every operation, induction over histories) + multi-instance twin correspondence",
+        text=("Theorems for every arithmetic instance: one successful n-channel call projected on an active channel IS the single-channel call on that channel's data "
+              "(equality of projected states and outputs), lifted to histories of any length; an inactive channel's input is never indexed (any replacement, also the empty "
+              "slice, gives the same result), its output is not written and its buffer only shifts; a mask changes neither counts, control state nor the active "
+              "channels' outputs; FFT adapters: per-channel step depends only on the channel's own data and the shared scalars. Oracle: n-channel instance (masked, "
+              "empty inactive slices, sentinel outputs) vs unmasked instance vs n single-channel twins on the real crate, bit for bit."),
+        note=NOTE,
+        ref="3.11"),
+    "C17": dict(
+        technique="Lean 4 proof (law-free: control relation across two sample types preserved by every operation, equal observation traces) + f32/f64 twin correspondence",
+        text=("Theorems for any two sample types over the same control arithmetic (instantiated at Float32/Float over IEEE Float): related states and same-shaped arguments "
+              "give related states and same-shaped outcomes for process, setters, reset and constructors; the sample-free observation traces of whole histories are equal "
+              "lists; FFT adapters likewise. Partial: the numeric closeness of the outputs is measured (f32 twin vs f64 twin within 64*eps32*peak), not proved."),
+        note=NOTE + "Table generation in T (sin/cos in f32) and the rounding of the samples are outside the theorems.",
+        ref="3.17"),
 }
 
 UNDER_CONSTRUCTION = "check under construction in this session (framework being built; see DESIGN.md section 3)"
